@@ -30,8 +30,9 @@ func vhIsKeyNotFound(err error) bool {
 //vh:prop C02 C05 C09 C06 C03
 //vh:param leaves 2 3
 //vh:param perleaf 3 4
+//vh:param symT 0 1
 func VH_C02_MapStep() {
-	vhSetThreshold(256)
+	vhThreshold()
 	logst := &vLogStorage{BasicSlabStorage: vhNewBasicStorage()}
 	storage := logst.BasicSlabStorage
 	addr := vhAddr(1)
